@@ -6,6 +6,8 @@ ID="$1"; shift
 TIER="${VERIF_TIER:-quick}"
 RACE=""
 REPLAY=""
+# C18 is decided by the race detector: always use the -race build.
+[ "$ID" = "C18" ] && RACE="-race"
 while [ $# -gt 0 ]; do
   case "$1" in
     quick|thorough) TIER="$1";;
@@ -16,14 +18,17 @@ while [ $# -gt 0 ]; do
 done
 export GOFLAGS=-mod=mod GOPROXY=off GOSUMDB=off GOTOOLCHAIN=local
 export VERIF_TIER="$TIER"
-export VERIF_ROOT="$(cd "$(dirname "$0")" && pwd)"
-cd "$VERIF_ROOT/harness" || exit 2
-mkdir -p "$VERIF_ROOT/.build" "$VERIF_ROOT/evidence" "$VERIF_ROOT/replays"
-BIN="$VERIF_ROOT/.build/checks${RACE:+-race}.test"
+HERE="$(cd "$(dirname "$0")" && pwd)"
+# VERIF_ROOT_OVERRIDE=1 keeps a caller-provided VERIF_ROOT (evidence/replays of
+# mutation runs go elsewhere); normally everything lives next to this script.
+if [ -z "${VERIF_ROOT_OVERRIDE:-}" ] || [ -z "${VERIF_ROOT:-}" ]; then export VERIF_ROOT="$HERE"; fi
+cd "$HERE/harness" || exit 2
+mkdir -p "$HERE/.build" "$VERIF_ROOT/evidence" "$VERIF_ROOT/replays"
+BIN="$HERE/.build/checks${RACE:+-race}.test"
 # Serialise concurrent builds of the same binary.
 (
   flock 9
   go1.26.8 test -c $RACE -tags "verif rpctest" -o "$BIN" ./checks
-) 9>"$VERIF_ROOT/.build/.lock${RACE:+-race}" || { echo "BUILD FAILED for $ID"; exit 2; }
+) 9>"$HERE/.build/.lock${RACE:+-race}" || { echo "BUILD FAILED for $ID"; exit 2; }
 [ -n "$REPLAY" ] && export VERIF_REPLAY="$REPLAY"
 exec "$BIN" -test.run "^Test${ID}\$" -test.timeout 0 -test.count 1
